@@ -76,8 +76,8 @@ Proof. exact Examples.ex14_run. Qed.
    Scope (stage E1): Gets on a FRESH-REVISION state — a state whose memo table holds only
    values of the current revision (in particular the initial database, and every state reached
    from it by Gets, panicking or not).  Writes followed by Gets (validation of memos of older
-   revisions on possibly-cyclic programs) are NOT covered by a theorem; see
-   C14_usable_afterwards_full_statement above and Core/DCycleExamples.v (cy_run) for a run.
+   revisions on possibly-cyclic programs) are covered by C14_usable_afterwards at the end of this
+   file (stage 8, Core/DPart*.v); see also Core/DCycleExamples.v (cy_run) for a run.
    Proofs in Core/DCycleSem.v, DCycleInv.v, DCycleBound.v, DCycleTop.v. *)
 From Salsa.Core Require DCycleSem DCycleInv DCycleBound DCycleTop DCycleTerm DCycleTermTop DCycleExamples.
 
@@ -233,3 +233,126 @@ Example C14_core_run :
          Salsa.Core.DCycleExamples.cy_init Salsa.Core.DCycleExamples.cy_ops)
   = [Panic PCycle; Ok 5; Panic PCycle; Ok 0; Ok 8; Ok 7; Ok 0; Panic PCycle].
 Proof. exact Salsa.Core.DCycleExamples.cy_run. Qed.
+
+
+(* ------------------------------------------------------------------------------------------
+   THE FULL STATEMENT over the Core model (stage 8; proofs in Core/DPartSem.v, DPartInvSem.v,
+   DPartOps.v, DPartTop.v): ALL programs of deterministic bodies (cyclic or not, cyclicity may
+   depend on the inputs; no rank hypothesis), EVERY well-formed history from the initial
+   database — writes of any durability, synthetic writes, cell changes, fault switches, LRU
+   capacity changes, eviction, Gets — and every Get q in it.  Needed instead of a rank: a finite
+   list [ns] closed under "may call" that contains the requested keys, and fuel >= length ns.
+   Well-formed (as in C01/C02, Core/DInvTop.v): installed durabilities are <= 3 ([dur_op]), and a
+   change of an untracked cell is followed by a new revision before the next Get ([wf_ops]).
+
+   With s the state reached before the Get and r its outcome:
+     - r is an injected fault, and then some fault switch is on in s; or
+     - r = Ok v where v is the from-scratch value, when the from-scratch evaluation of q at the
+       current snapshot is acyclic ([evalo .. (length ns) ..] = Some v, see C14_cyclic_iff); or
+     - r = Panic PCycle when it re-enters a node ([evalo] = None);
+   never out of fuel, never the backdate-violation panic, never a value for a cyclic query, never
+   a cycle panic for an acyclic one.  In particular: once inputs break the cycle, the formerly
+   cyclic functions return correct results, whatever panicked before. *)
+From Salsa.Core Require DPartSem DPartInvSem DPartOps DPartTop DPartExamples.
+
+Theorem C14_usable_afterwards : forall (prog : qkey -> Salsa.Core.Model.body) (noeq : qkey -> bool)
+    (fams : list N) (ns : list qkey),
+  (forall q d, In q ns -> Salsa.Core.Spec.calls (prog q) d -> In d ns) ->
+  forall fuel : nat, (length ns <= fuel)%nat ->
+  forall iv idur lru0 (pre : list Salsa.Core.Model.op) (q : qkey),
+  (forall i, idur i <= 3) ->
+  Forall Salsa.Core.DInvTop.dur_op (pre ++ [Salsa.Core.Model.OGet q]) ->
+  Forall (fun o => match o with Salsa.Core.Model.OGet q' => In q' ns | _ => True end)
+         (pre ++ [Salsa.Core.Model.OGet q]) ->
+  Salsa.Core.InvTop.wf_ops false (pre ++ [Salsa.Core.Model.OGet q]) ->
+  let s := fst (Salsa.Core.Model.run_ops prog noeq fams fuel (Salsa.Core.Model.init iv idur lru0) pre) in
+  let r := snd (Salsa.Core.Model.step prog noeq fams fuel s (Salsa.Core.Model.OGet q)) in
+  (r = Panic PInjected /\
+   ((exists c, Salsa.Core.Model.d_pcell s c <> 0) \/ Salsa.Core.Model.d_evfault s <> None)) \/
+  match Salsa.Core.Spec.evalo prog (length ns) (Salsa.Core.Spec.snap_of s) q with
+  | Some v => r = Ok v
+  | None => r = Panic PCycle
+  end.
+Proof.
+  intros prog noeq fams ns Hc fuel Hf iv idur lru0 pre q Hid Hdur Hlist Hwf.
+  exact (Salsa.Core.DPartTop.usable_afterwards prog noeq fams ns Hc (length ns) (le_n _) fuel Hf
+           iv idur lru0 pre q Hid Hdur Hlist Hwf).
+Qed.
+Check C14_usable_afterwards : forall (prog : qkey -> Salsa.Core.Model.body) (noeq : qkey -> bool)
+    (fams : list N) (ns : list qkey),
+  (forall q d, In q ns -> Salsa.Core.Spec.calls (prog q) d -> In d ns) ->
+  forall fuel : nat, (length ns <= fuel)%nat ->
+  forall iv idur lru0 (pre : list Salsa.Core.Model.op) (q : qkey),
+  (forall i, idur i <= 3) ->
+  Forall Salsa.Core.DInvTop.dur_op (pre ++ [Salsa.Core.Model.OGet q]) ->
+  Forall (fun o => match o with Salsa.Core.Model.OGet q' => In q' ns | _ => True end)
+         (pre ++ [Salsa.Core.Model.OGet q]) ->
+  Salsa.Core.InvTop.wf_ops false (pre ++ [Salsa.Core.Model.OGet q]) ->
+  let s := fst (Salsa.Core.Model.run_ops prog noeq fams fuel (Salsa.Core.Model.init iv idur lru0) pre) in
+  let r := snd (Salsa.Core.Model.step prog noeq fams fuel s (Salsa.Core.Model.OGet q)) in
+  (r = Panic PInjected /\
+   ((exists c, Salsa.Core.Model.d_pcell s c <> 0) \/ Salsa.Core.Model.d_evfault s <> None)) \/
+  match Salsa.Core.Spec.evalo prog (length ns) (Salsa.Core.Spec.snap_of s) q with
+  | Some v => r = Ok v
+  | None => r = Panic PCycle
+  end.
+Print Assumptions C14_usable_afterwards.
+
+(* the same for a whole history at once, from any state satisfying the invariant
+   ([state_ok]: some ghost history makes DInv and PM hold, no claim is held) *)
+Theorem C14_usable_afterwards_from : forall (prog : qkey -> Salsa.Core.Model.body) (noeq : qkey -> bool)
+    (fams : list N) (ns : list qkey),
+  (forall q d, In q ns -> Salsa.Core.Spec.calls (prog q) d -> In d ns) ->
+  forall fuel : nat, (length ns <= fuel)%nat ->
+  forall (ops : list Salsa.Core.Model.op) (dirty : bool) (s : Salsa.Core.Model.db),
+  Forall Salsa.Core.DInvTop.dur_op ops -> Forall (Salsa.Core.DPartTop.op_listed ns) ops ->
+  Salsa.Core.InvTop.wf_ops dirty ops ->
+  Salsa.Core.DPartTop.state_ok prog ns (length ns) dirty s ->
+  Salsa.Core.DPartTop.outs_part prog noeq fams (length ns) fuel s ops.
+Proof.
+  intros prog noeq fams ns Hc fuel Hf.
+  exact (Salsa.Core.DPartTop.from_scratch_part prog noeq fams ns Hc (length ns) (le_n _) fuel Hf).
+Qed.
+Check C14_usable_afterwards_from : forall (prog : qkey -> Salsa.Core.Model.body) (noeq : qkey -> bool)
+    (fams : list N) (ns : list qkey),
+  (forall q d, In q ns -> Salsa.Core.Spec.calls (prog q) d -> In d ns) ->
+  forall fuel : nat, (length ns <= fuel)%nat ->
+  forall (ops : list Salsa.Core.Model.op) (dirty : bool) (s : Salsa.Core.Model.db),
+  Forall Salsa.Core.DInvTop.dur_op ops -> Forall (Salsa.Core.DPartTop.op_listed ns) ops ->
+  Salsa.Core.InvTop.wf_ops dirty ops ->
+  Salsa.Core.DPartTop.state_ok prog ns (length ns) dirty s ->
+  Salsa.Core.DPartTop.outs_part prog noeq fams (length ns) fuel s ops.
+Print Assumptions C14_usable_afterwards_from.
+
+(* Sanity: for acyclic programs (a rank exists) the theorem of Core/DInvTop.v
+   ([from_scratch_dur_strong_init], C01/C02) comes out as a corollary, for the listed keys. *)
+Theorem C14_acyclic_corollary : forall (prog : qkey -> Salsa.Core.Model.body) (noeq : qkey -> bool)
+    (fams : list N) (ns : list qkey),
+  (forall q d, In q ns -> Salsa.Core.Spec.calls (prog q) d -> In d ns) ->
+  forall NF : nat, (length ns <= NF)%nat ->
+  forall rank : qkey -> nat, Salsa.Core.Spec.calls_below prog rank -> (forall q, (rank q < NF)%nat) ->
+  forall fuel : nat, (length ns <= fuel)%nat ->
+  forall iv idur lru0 ops, (forall i, idur i <= 3) ->
+  Forall Salsa.Core.DInvTop.dur_op ops -> Forall (Salsa.Core.DPartTop.op_listed ns) ops ->
+  Salsa.Core.InvTop.wf_ops false ops ->
+  Salsa.Core.DInvTop.outs_ok_strict prog noeq fams NF fuel (Salsa.Core.Model.init iv idur lru0) ops.
+Proof. exact Salsa.Core.DPartTop.from_scratch_dur_strong_init_again. Qed.
+Check C14_acyclic_corollary : forall (prog : qkey -> Salsa.Core.Model.body) (noeq : qkey -> bool)
+    (fams : list N) (ns : list qkey),
+  (forall q d, In q ns -> Salsa.Core.Spec.calls (prog q) d -> In d ns) ->
+  forall NF : nat, (length ns <= NF)%nat ->
+  forall rank : qkey -> nat, Salsa.Core.Spec.calls_below prog rank -> (forall q, (rank q < NF)%nat) ->
+  forall fuel : nat, (length ns <= fuel)%nat ->
+  forall iv idur lru0 ops, (forall i, idur i <= 3) ->
+  Forall Salsa.Core.DInvTop.dur_op ops -> Forall (Salsa.Core.DPartTop.op_listed ns) ops ->
+  Salsa.Core.InvTop.wf_ops false ops ->
+  Salsa.Core.DInvTop.outs_ok_strict prog noeq fams NF fuel (Salsa.Core.Model.init iv idur lru0) ops.
+Print Assumptions C14_acyclic_corollary.
+
+(* Non-vacuity: the history of C14_core_run (cycle panics, a write that clears the bit, Gets of
+   the formerly cyclic nodes, a write that sets it again) satisfies the hypotheses, for every
+   fuel >= 3 *)
+Example C14_core_history_by_theorem : forall fuel, (3 <= fuel)%nat ->
+  Salsa.Core.DPartTop.outs_part Salsa.Core.DCycleExamples.cy_prog Salsa.Core.DCycleExamples.cy_noeq [] 3 fuel
+    Salsa.Core.DCycleExamples.cy_init Salsa.Core.DCycleExamples.cy_ops.
+Proof. exact Salsa.Core.DPartExamples.cy_part. Qed.
